@@ -89,6 +89,15 @@ def cases(rng, tier):
                 if kind in ("scalar",):
                     p["s"] = rng.choice([0, 1, 2, 3, 255, -1, 1.5, True])
                 out.append(p)
+                if kind in ("unary", "scalar", "npscalar", "column", "ragged") and rng.random() < 0.3:
+                    # the function form with numpy's own keyword arguments (result type, casting rule): numpy applied per row with
+                    # the same keywords is the reference -- a combination numpy refuses must be refused
+                    kw = {}
+                    if rng.random() < 0.75:
+                        kw["dtype"] = rng.choice(["float64", "int64", "float32", "int16", "uint8", "bool", dta])
+                    if not kw or rng.random() < 0.4:
+                        kw["casting"] = rng.choice(["no", "equiv", "safe", "same_kind", "unsafe"])
+                    out.append(dict(p, kw=kw, vseed=rng.randint(0, 999)))
                 if kind in ("scalar", "npscalar", "column", "ragged", "ragged_bad") and rng.random() < 0.35:
                     # the in-place form ra op= x (numpy: ufunc(ra, x, out=ra)): the cells change, the object stays, a result that
                     # cannot be cast back into the array's dtype is refused and nothing changes
@@ -125,7 +134,7 @@ def cases(rng, tier):
 
 
 def key(p):
-    return engine.stable_hash([p["lens"], p["kind"], p["side"], p["uf"], p["dta"], p["dtb"], p.get("other"), p.get("ncol"), p.get("s"), p.get("derived"), p.get("vmode"), p.get("inplace")])
+    return engine.stable_hash([p["lens"], p["kind"], p["side"], p["uf"], p["dta"], p["dtb"], p.get("other"), p.get("ncol"), p.get("s"), p.get("derived"), p.get("vmode"), p.get("inplace"), p.get("kw")])
 
 
 def nontrivial(p):
@@ -192,8 +201,9 @@ def run_impl(p):
         k = p["kind"]
         with np.errstate(all="ignore"), warnings.catch_warnings():
             warnings.simplefilter("ignore")
+            kw = p.get("kw") or {}
             if k == "unary":
-                res = uf(ra); x = None
+                res = uf(ra, **kw); x = None
             else:
                 if k in ("column", "column_bad"):
                     x = other.reshape(-1, 1).copy()
@@ -220,7 +230,7 @@ def run_impl(p):
                     if res is not ra:
                         raise AssertionError("the in-place form returned another object")
                 else:
-                    res = uf(ra, x) if p["side"] == "right" else uf(x, ra)
+                    res = uf(ra, x, **kw) if p["side"] == "right" else uf(x, ra, **kw)
         o = {"k": "obs", "result": canon(res), "lengths": canon([int(v) for v in res.lengths])}
         same_a = bool(p.get("inplace")) or bool(np.array_equal(ra.ravel().view(np.uint8), a.view(np.uint8)))
         same_x = True
@@ -248,20 +258,21 @@ def _expected_rows(p, pairs_rows=None):
     rows = _rows(a, p["lens"])
     n = len(rows)
     res = []
+    kw = p.get("kw") or {}
     with np.errstate(all="ignore"), warnings.catch_warnings():
         warnings.simplefilter("ignore")
         if k == "unary":
-            res = [uf(r) for r in rows]; probe = uf(a[:0])
+            res = [uf(r, **kw) for r in rows]; probe = uf(a[:0], **kw)
         elif k in ("scalar", "npscalar"):
-            res = [uf(r, other) if p["side"] == "right" else uf(other, r) for r in rows]
-            probe = uf(a[:0], other) if p["side"] == "right" else uf(other, a[:0])
+            res = [uf(r, other, **kw) if p["side"] == "right" else uf(other, r, **kw) for r in rows]
+            probe = uf(a[:0], other, **kw) if p["side"] == "right" else uf(other, a[:0], **kw)
         elif k == "column":
-            res = [uf(r, other[i]) if p["side"] == "right" else uf(other[i], r) for i, r in enumerate(rows)]
-            probe = uf(a[:0], other[:0]) if p["side"] == "right" else uf(other[:0], a[:0])
+            res = [uf(r, other[i], **kw) if p["side"] == "right" else uf(other[i], r, **kw) for i, r in enumerate(rows)]
+            probe = uf(a[:0], other[:0], **kw) if p["side"] == "right" else uf(other[:0], a[:0], **kw)
         elif k == "ragged":
             orows = _rows(other, p["lens"])
-            res = [uf(r, o) if p["side"] == "right" else uf(o, r) for r, o in zip(rows, orows)]
-            probe = uf(a[:0], other[:0]) if p["side"] == "right" else uf(other[:0], a[:0])
+            res = [uf(r, o, **kw) if p["side"] == "right" else uf(o, r, **kw) for r, o in zip(rows, orows)]
+            probe = uf(a[:0], other[:0], **kw) if p["side"] == "right" else uf(other[:0], a[:0], **kw)
         else:
             return None, None
     dt = probe.dtype
@@ -294,7 +305,7 @@ def oracle(p):
 
 
 def lean_request(p):
-    if p.get("inplace"):
+    if p.get("inplace") or p.get("kw"):
         return None          # the Lean model has no object identity / casting rule: implementation vs numpy only
     k = p["kind"]
     rows = gens.rows_of_ids(p["lens"])
